@@ -1191,11 +1191,14 @@ class NucsLoader(importlib.abc.Loader):
         return None
 
     def exec_module(self, module):
-        src = open(self.path).read()
-        tree = ast.parse(src, self.path)
-        tree = LoopGuard().visit(tree)
-        ast.fix_missing_locations(tree)
-        code = compile(tree, self.path, "exec")
+        code = _CODE_CACHE.get(self.path)
+        if code is None:
+            src = open(self.path).read()
+            tree = ast.parse(src, self.path)
+            tree = LoopGuard().visit(tree)
+            ast.fix_missing_locations(tree)
+            code = compile(tree, self.path, "exec")
+            _CODE_CACHE[self.path] = code
         module.__dict__["__loop_guard__"] = ENGINE.loop_guard
         module.__dict__["max"] = sym_max
         module.__dict__["range"] = sym_range
@@ -1203,6 +1206,16 @@ class NucsLoader(importlib.abc.Loader):
         module.__dict__["int"] = SInt
         module.__dict__["bool"] = SBool
         exec(code, module.__dict__)
+
+
+_CODE_CACHE = {}
+
+
+def reload_nucs():
+    """forget every loaded nucs module: the next import executes the module bodies again, so that all module-level state
+    (registries, caches, counters) is that of a fresh interpreter.  The compiled code objects are reused."""
+    for name in [n for n in sys.modules if n == "nucs" or n.startswith("nucs.")]:
+        del sys.modules[name]
 
 
 class NucsFinder(importlib.abc.MetaPathFinder):
